@@ -1,5 +1,6 @@
 /- Property C14: the property theorems (and nothing else). -/
 import Frugal.Proofs.DecodeRefine
+import Frugal.Proofs.ViewsLemmas
 import Frugal.Props.Instances
 namespace Frugal.C14
 open Frugal
@@ -25,4 +26,39 @@ theorem copy_never_views (isBin : Bool) (total : Nat) (s r : Bytes) (hw : s.leng
       .ok (if s.length = 0 then (if isBin then .bin false [] else .str []) else (if isBin then .bin false s else .str s), r) := by
   rw [decodeStr_ser isBin false total s r hw]
   by_cases h : s.length = 0 <;> simp [readStr, h, Outcome.mapv]
+
+/-- **C14 for the whole decoder.**  Whatever well-formed message `DecodeObject` is given (any field
+    order, duplicates, unknown fields, nesting, trailing bytes) and whatever destination without views
+    it decodes into, in the value it returns a view of the input occurs only as the value of a field
+    declared `nocopy` (plain or optional-pointer form, at any nesting level), and every such view
+    `(off, s)` is non-empty and is exactly `input[off : off + len s]` (`viewsExact`, Views.lean); in
+    particular no field without the option references the buffer and a zero-length value does not. -/
+theorem decoded_views_exact (S : Schema) (hS : S.ok = true)
+    (hdf : ∀ sid, ∀ f ∈ (S.get sid).fields, ∀ d, f.dflt = some d → plain d = true)
+    (sid : Nat) (fs : List (Nat × TVal)) (trailing : Bytes) (vs : List Val) (hh : Bytes) (w : Val) (n : Nat)
+    (hw : wfFields fs = true) (hdest : plainList vs = true)
+    (h : decodeM Generated.params S sid (ser (.strct fs) ++ trailing) (.st vs hh) = .ok (w, n)) :
+    viewsExact S (ser (.strct fs) ++ trailing) (.strct sid) w = true := by
+  rw [decodeM_refines Instances.params_valid S hS sid fs trailing _ hw] at h
+  obtain ⟨w0, h0, e⟩ := mapv_ok_inv _ _ _ h
+  simp only [Prod.mk.injEq] at e
+  obtain ⟨rfl, _⟩ := e
+  exact readMessage_views Generated.params S _ hdf sid fs trailing vs hh _ rfl hdest h0
+
+/-- what `viewsExact` says at a field: a `nocopy` field holds a value all of whose views are exact,
+    any other field a value in which views occur only below `nocopy` fields -/
+theorem views_at_fields (S : Schema) (inp : Bytes) (f : Field) (fr : List Field) (x : Val) (xr : List Val) :
+    viewsExactFields S inp (f :: fr) (x :: xr) =
+      ((if f.nocopy then viewsAt inp x else viewsExact S inp f.ty x) && viewsExactFields S inp fr xr) := by
+  simp [viewsExactFields]
+
+/-- … and a view is exact when it is the bytes at its offset, non-empty -/
+theorem view_is_exact (inp : Bytes) (off : Nat) (s : Bytes) :
+    viewsAt inp (.vstr off s) = (decide ((inp.drop off).take s.length = s) && !s.isEmpty) := by
+  simp [viewsAt]
+
+/-- a scalar / string / binary position that is not a `nocopy` field never holds a view -/
+theorem base_never_views (S : Schema) (inp : Bytes) (k : Kind) (off : Nat) (s : Bytes) :
+    viewsExact S inp (.base k) (.vstr off s) = false ∧ viewsExact S inp (.base k) (.vbin off s) = false := by
+  constructor <;> simp [viewsExact, plain]
 end Frugal.C14
